@@ -1,14 +1,30 @@
-(** Correspondence interface for C02: one model built in two node-insertion orders. *)
+(** Correspondence interface for C02: one model built in two node-insertion orders, and histories of
+    generate calls and in-place edits on one model object. *)
 From Coq Require Import List String ZArith Arith Bool.
 From Elfi Require Import Graph.Net Graph.Denote.
 Import ListNotations.
+
+(** One generate call of a history on ONE model object (earlier steps of the history: other generate
+    calls with various outputs and seeds, and edits through the public API - become, observed data,
+    runtime flags, parameters, added / removed nodes and edges).  The model has no cross-call state:
+    [generate] is a function of the CURRENT source net only, so the model's answer for the step is
+    its answer for [h_src], whatever came before. *)
+Record hstep := {
+  h_src : snet;                 (* source net of the edited object as introspected at this call *)
+  h_fresh : snet;               (* a freshly built model object with the same nodes, edges and observed
+                                   data (inserted in another order), on which nothing was computed *)
+  h_outputs : list name;
+  h_impl : impl_result;         (* generate(seed=s) on the object with the history *)
+  h_impl_fresh : impl_result    (* generate(seed=s) on the fresh build *)
+}.
 
 Record case := {
   d_src1 : snet;                (* source net as introspected after building in creation order *)
   d_src2 : snet;                (* the same model built in another valid insertion order *)
   d_outputs : list name;
   d_impl1 : impl_result;        (* generate(seed=s) on the first *)
-  d_impl2 : impl_result         (* generate(seed=s) on the second, after unrelated computations *)
+  d_impl2 : impl_result;        (* generate(seed=s) on the second, after unrelated computations *)
+  d_hist : list hstep           (* the generate calls of a history of calls and edits on the first *)
 }.
 
 Definition impl_eqb (a b : impl_result) : bool :=
@@ -24,12 +40,26 @@ Definition model_result (src : snet) (outs : list name) : impl_result :=
   | Err _ => ImplErr
   end.
 
-(** the model reproduces both runs *)
+(** the model reproduces both runs of a history step: the run on the edited object from the object's
+    CURRENT graph alone, and the run on the fresh build *)
+Definition step_agree (s : hstep) : bool :=
+  impl_eqb (model_result (h_src s) (h_outputs s)) (h_impl s)
+  && impl_eqb (model_result (h_fresh s) (h_outputs s)) (h_impl_fresh s).
+
+(** a generate call returns what a freshly built equivalent model returns: it does not depend on
+    earlier generate calls or edits of the same object beyond the current graph *)
+Definition step_ok (s : hstep) : bool :=
+  impl_eqb (h_impl s) (h_impl_fresh s).
+
+(** the model reproduces both runs, and every step of the history *)
 Definition agree (c : case) : bool :=
   impl_eqb (model_result (d_src1 c) (d_outputs c)) (d_impl1 c)
-  && impl_eqb (model_result (d_src2 c) (d_outputs c)) (d_impl2 c).
+  && impl_eqb (model_result (d_src2 c) (d_outputs c)) (d_impl2 c)
+  && forallb step_agree (d_hist c).
 
 (** the property: results and the order of operation calls (hence of draws from the single
-    batch generator) do not depend on insertion order or on what was computed before *)
+    batch generator) do not depend on insertion order or on what was computed before - neither in
+    the process nor on the same model object *)
 Definition ok (c : case) : bool :=
-  impl_eqb (d_impl1 c) (d_impl2 c).
+  impl_eqb (d_impl1 c) (d_impl2 c)
+  && forallb step_ok (d_hist c).
